@@ -557,6 +557,48 @@ func ruleR06f(c *Ctx) {
 // boundedLoopIdiom recognises three loops that are bounded by the data they consume rather than by a counter.
 func boundedLoopIdiom(loop *ast.ForStmt, info *types.Info) string {
 	if loop.Cond == nil {
+		// for { i := strings.Index..(X, ..); if i < 0 { break }; ...; X = X[i+K:] } with K >= 1: X gets shorter every time round
+		if loop.Init == nil && loop.Post == nil && len(loop.Body.List) >= 3 {
+			var idx, x string
+			if as, ok := loop.Body.List[0].(*ast.AssignStmt); ok && len(as.Lhs) == 1 && len(as.Rhs) == 1 {
+				idx = exprKey(as.Lhs[0])
+				if call, ok := ast.Unparen(as.Rhs[0]).(*ast.CallExpr); ok && len(call.Args) >= 1 {
+					if cal := calleeFunc(call, info); cal != nil && cal.Pkg() != nil && cal.Pkg().Path() == "strings" && strings.HasPrefix(cal.Name(), "Index") {
+						x = exprKey(call.Args[0])
+					}
+				}
+			} else if ds, ok := loop.Body.List[0].(*ast.DeclStmt); ok {
+				if gd, ok := ds.Decl.(*ast.GenDecl); ok && len(gd.Specs) == 1 {
+					if vs, ok := gd.Specs[0].(*ast.ValueSpec); ok && len(vs.Names) == 1 && len(vs.Values) == 1 {
+						idx = vs.Names[0].Name
+						if call, ok := ast.Unparen(vs.Values[0]).(*ast.CallExpr); ok && len(call.Args) >= 1 {
+							if cal := calleeFunc(call, info); cal != nil && cal.Pkg() != nil && cal.Pkg().Path() == "strings" && strings.HasPrefix(cal.Name(), "Index") {
+								x = exprKey(call.Args[0])
+							}
+						}
+					}
+				}
+			}
+			leaves := false
+			if ifs, ok := loop.Body.List[1].(*ast.IfStmt); ok && len(ifs.Body.List) == 1 {
+				if br, ok := ifs.Body.List[0].(*ast.BranchStmt); ok && br.Tok == token.BREAK {
+					if k := exprKey(ifs.Cond); k == idx+" < 0" || k == idx+" == -1" {
+						leaves = true
+					}
+				}
+			}
+			if x != "" && leaves {
+				if as, ok := loop.Body.List[len(loop.Body.List)-1].(*ast.AssignStmt); ok && len(as.Lhs) == 1 && len(as.Rhs) == 1 && exprKey(as.Lhs[0]) == x {
+					if se, ok := ast.Unparen(as.Rhs[0]).(*ast.SliceExpr); ok && exprKey(se.X) == x && se.High == nil && se.Low != nil {
+						if lb, ok := ast.Unparen(se.Low).(*ast.BinaryExpr); ok && lb.Op == token.ADD && exprKey(lb.X) == idx {
+							if tv, ok := info.Types[lb.Y]; ok && tv.Value != nil && tv.Value.Kind() == constant.Int && constant.Sign(tv.Value) > 0 {
+								return "search-and-cut loop: left when the search finds nothing, and otherwise " + x + " is cut after the position found, so it gets shorter every time round"
+							}
+						}
+					}
+				}
+			}
+		}
 		return ""
 	}
 	cond := exprKey(loop.Cond)
